@@ -33,6 +33,7 @@
 package c34
 
 import (
+	"bytes"
 	"context"
 	"encoding/binary"
 	"errors"
@@ -58,15 +59,25 @@ import (
 
 const minValueSize = 4
 
+// The first patternPeriod bytes of a value are a function of (id, position);
+// the rest repeats them. (Filling byte by byte is very slow under the race
+// detector; the tail is produced by doubling copies and verified by one
+// comparison of the buffer against itself shifted by one period.)
+const patternPeriod = 256
+
 func fillValue(buf []byte, id uint32) {
 	var hdr [4]byte
 	binary.LittleEndian.PutUint32(hdr[:], id)
-	for i := range buf {
+	n := min(len(buf), patternPeriod)
+	for i := 0; i < n; i++ {
 		if i < 4 {
 			buf[i] = hdr[i]
 		} else {
 			buf[i] = patternByte(id, i)
 		}
+	}
+	for n < len(buf) {
+		n += copy(buf[n:], buf[:n])
 	}
 }
 
@@ -91,13 +102,26 @@ func checkValue(buf []byte, wantID uint32, wantLen int) (id uint32, problem stri
 	if wantLen >= 0 && len(buf) != wantLen {
 		return id, fmt.Sprintf("buffer has length %d, value %d was created with %d", len(buf), id, wantLen)
 	}
-	for i := 4; i < len(buf); i++ {
+	bad := -1
+	for i := 4; i < len(buf) && i < patternPeriod; i++ {
 		if buf[i] != patternByte(id, i) {
-			if buf[i] == 0xff {
-				return id, fmt.Sprintf("byte %d is 0xff poison: the value was freed while referenced", i)
-			}
-			return id, fmt.Sprintf("byte %d is %#x, expected %#x", i, buf[i], patternByte(id, i))
+			bad = i
+			break
 		}
+	}
+	if bad < 0 && len(buf) > patternPeriod && !bytes.Equal(buf[patternPeriod:], buf[:len(buf)-patternPeriod]) {
+		for i := patternPeriod; i < len(buf); i++ {
+			if buf[i] != buf[i-patternPeriod] {
+				bad = i
+				break
+			}
+		}
+	}
+	if bad >= 0 {
+		if buf[bad] == 0xff {
+			return id, fmt.Sprintf("byte %d is 0xff poison: the value was freed while referenced", bad)
+		}
+		return id, fmt.Sprintf("byte %d is %#x, expected %#x", bad, buf[bad], patternByte(id, bad%patternPeriod))
 	}
 	return id, ""
 }
@@ -283,13 +307,18 @@ func drawSpec(rng *rand.Rand, small bool) engineSpec {
 
 func (s engineSpec) valueSize(rng *rand.Rand) int {
 	shard := int(s.CacheSize) / s.Shards
+	// Values above 256 KiB are not generated: pebble poisons freed values byte
+	// by byte under invariants, which costs ~0.3 s per MiB under the race
+	// detector.
+	const big = 256 << 10
 	switch x := rng.IntN(100); {
-	case x < 40:
+	case x < 45:
 		return minValueSize + rng.IntN(13)
-	case x < 80:
-		return minValueSize + rng.IntN(max(1, shard/4))
-	case x < 95:
-		return max(minValueSize, shard/2+rng.IntN(max(1, shard/2)))
+	case x < 85:
+		return minValueSize + rng.IntN(max(1, min(shard/4, 4096)))
+	case x < 97 || shard > big:
+		lo := min(shard/2, big/2)
+		return max(minValueSize, lo+rng.IntN(max(1, lo)))
 	default:
 		return shard + 1 + rng.IntN(max(1, shard/2))
 	}
@@ -929,8 +958,8 @@ func TestVerifC34(t *testing.T) {
 	r := vcommon.NewReport("C34", "main")
 	defer r.Finish(t)
 	r.Rule(concurrentRule)
-	r.Assume("value sizes below 4 bytes are not generated (the id needs 4 bytes)")
-	n := vcommon.Scale(210, 6000)
+	r.Assume("value sizes below 4 bytes (the id needs 4 bytes) and above 256 KiB are not generated; values larger than a shard are generated for shards up to 256 KiB")
+	n := vcommon.Scale(210, 2400)
 	ran := false
 	r.Cases(n, func(i int, rng *rand.Rand) {
 		ran = true
@@ -949,7 +978,7 @@ func TestVerifC34Asan(t *testing.T) {
 	r := vcommon.NewReport("C34", "asan")
 	defer r.Finish(t)
 	r.Rule(concurrentRule + " (run under AddressSanitizer)")
-	n := vcommon.Scale(30, 1000)
+	n := vcommon.Scale(30, 300)
 	r.Cases(n, func(i int, rng *rand.Rand) {
 		runConcurrent(r, i, rng, true)
 	})
@@ -964,7 +993,7 @@ func TestVerifC34Seq(t *testing.T) {
 	r.Rule("case = one single-threaded operation sequence (300-800 ops) on a cache of 1-16 shards and 256 B-256 KiB over 2-3 handles; " +
 		"exact model: a hit must return the value of the latest Set/SetReadValue not followed by Delete/EvictFile, size checked after every op with no reservation outstanding; " +
 		"distinct = parameters and op seed; non-trivial = at least 10 hits and 10 evictions-by-capacity (misses of stored keys)")
-	n := vcommon.Scale(400, 20000)
+	n := vcommon.Scale(400, 12000)
 	sizeReported := false
 	r.Cases(n, func(ci int, rng *rand.Rand) {
 		shards := []int{1, 1, 2, 4, 16}[rng.IntN(5)]
